@@ -672,8 +672,7 @@ func checkFreeNumberSearch(p *core.Program, r *core.Report) {
 			}
 		})
 	})
-	r.Count("number comparisons in AddExtensionBlock", n)
-	r.Min("number comparisons in AddExtensionBlock", 1)
+	r.Check(n > 0, "unique-block-numbers/"+fname(fn)+"/compared-with-every-block", "the number given to a new block is found by comparing a candidate with the numbers of the blocks the bundle has (numbers may have gaps - a block was removed - and any order - a foreign sender)", p.Pos(fn.Pos()), "", "no comparison of a candidate with the existing blocks' numbers: a number derived from the count of blocks collides as soon as the numbering has a gap (blocks #3,#1 after #2 was removed: the new block gets 3 again)")
 	r.Check(len(bad) == 0, "unique-block-numbers/"+fname(fn)+"/search-restarts", "the search for a free block number compares the final candidate with every block: after the candidate was changed the pass over the blocks starts again (blocks of a parsed bundle may be in any order)", p.Pos(fn.Pos()), "", "the candidate is incremented at "+strings.Join(bad, ", ")+" inside the pass over the blocks and the pass goes on: blocks already visited are never compared with the new candidate; with numbers 3,2,1 on the wire the new block gets number 3 again")
 }
 
